@@ -267,17 +267,21 @@ impl CdnNgdpResolutionCache {
         root_content_key: ContentKey,
         file_path: &str,
     ) -> NgdpCacheResult<Option<ContentKey>> {
-        // Try cache first
-        if let Some(content_key) = self
-            .cache
-            .resolve_file_to_content(root_content_key, file_path)
-            .await?
-        {
-            return Ok(Some(content_key));
+        // Try cache first. A cached root that has no such path is an answer, not a
+        // miss: only a root that is not cached is fetched.
+        if self.cache.has_root_file(root_content_key).await? {
+            return self
+                .cache
+                .resolve_file_to_content(root_content_key, file_path)
+                .await;
         }
 
-        // Cache miss - fetch root file from CDN
+        // Cache miss - fetch root file from CDN; only a download that hashes to
+        // the requested key is cached (a wrong one would fail every later lookup)
         let root_data = self.cdn.fetch_content(root_content_key).await?;
+        if ContentKey::from_data(&root_data) != root_content_key {
+            return Err(NgdpCacheError::ContentValidationFailed(root_content_key));
+        }
         self.cache
             .cache_root_file(root_content_key, root_data)
             .await?;
